@@ -44,3 +44,64 @@ theorem world_list_faithful (w : W.World) (l : W.Loaded) (tz : Int) (ts : List I
   simp
 
 end C10
+
+namespace C10
+
+/-- **`update-ref refs/heads/<b> <id>`, when it ends `ok`** (whole-repository model): `<b>` is an existing branch, `<id>` is the
+    id of a stored object of kind commit that parses, the branch file now holds its 40 hex digits, HEAD names `<b>`, and every other
+    branch file keeps its bytes -/
+theorem world_update_ref_spec (H : HashFn) (w : W.World) (l : W.Loaded) (path hs : Bytes) (o : Option Bytes)
+    (hok : (W.updateRefCmd H w l [path, hs]).2 = .ok o) :
+    ∃ id d b, readHash hs = some id ∧ hs = hashStr id ∧ Store.get H (W.store w) id = .ok (.commit, d) ∧ (Commit.parse d).isSome = true ∧
+      b = (Bytes.split1 47 path).getLast?.getD [] ∧ Refs.exists_ l.refs b = true ∧
+      W.aget (W.updateRefCmd H w l [path, hs]).1.heads b = some (hashStr id) ∧
+      (W.updateRefCmd H w l [path, hs]).1.head = some (Head.render b) ∧
+      ∀ n, n ≠ b → W.aget (W.updateRefCmd H w l [path, hs]).1.heads n = W.aget w.heads n := by
+  unfold W.updateRefCmd at hok ⊢
+  dsimp only at hok ⊢
+  by_cases h1 : (!W.isBranchPath path) = true
+  · rw [if_pos h1] at hok; cases hok
+  · rw [if_neg h1] at hok ⊢
+    by_cases h2 : (hs.length != 40) = true
+    · rw [if_pos h2] at hok; cases hok
+    · rw [if_neg h2] at hok ⊢
+      cases hr : readHash hs with
+      | none => simp only [hr] at hok; cases hok
+      | some id =>
+        simp only [hr] at hok ⊢
+        by_cases h3 : (hs != hashStr id) = true
+        · rw [if_pos h3] at hok; cases hok
+        · rw [if_neg h3] at hok ⊢
+          have hseq : hs = hashStr id := by simpa using h3
+          cases hg : Store.get H (W.store w) id with
+          | crash => simp only [hg] at hok; cases hok
+          | err => simp only [hg] at hok; cases hok
+          | ok kd =>
+            obtain ⟨k, d⟩ := kd
+            cases k with
+            | commit =>
+              simp only [hg] at hok ⊢
+              unfold W.updateRefTo at hok ⊢
+              by_cases h4 : (!Refs.exists_ l.refs ((Bytes.split1 47 path).getLast?.getD [])) = true
+              · rw [if_pos h4] at hok; cases hok
+              · rw [if_neg h4] at hok ⊢
+                by_cases h5 : w.head.isNone = true
+                · rw [if_pos h5] at hok; cases hok
+                · rw [if_neg h5] at hok ⊢
+                  by_cases h6 : (Commit.parse d).isNone = true
+                  · rw [if_pos h6] at hok; cases hok
+                  · rw [if_neg h6]
+                    refine ⟨id, d, _, rfl, hseq, hg, ?_, rfl, (by simpa using h4), ?_, rfl, ?_⟩
+                    · cases hp : Commit.parse d with
+                      | none => simp [hp] at h6
+                      | some c => rfl
+                    · simp [W.setHead, W.aget_aset_self]
+                    · intro n hn
+                      simp only [W.setHead]
+                      exact W.aget_aset_ne _ _ _ _ hn
+            | undefined => simp only [hg] at hok; cases hok
+            | blob => simp only [hg] at hok; cases hok
+            | tree => simp only [hg] at hok; cases hok
+            | tag => simp only [hg] at hok; cases hok
+
+end C10
